@@ -15,7 +15,7 @@ import (
 func init() { register("C04", runC04) }
 
 func runC04(c *Check, tier string) {
-	c.Decides = "absence of the mechanisms by which this code base can hang or crash: shared walker/pool/registry/loader state is only touched under its mutex once goroutines run (guarded-by lock sets); nodes are registered before any routine that can look them up is spawned; every lock acquired is released (or its release deferred) on every path; a node routine always reports a completion unless it was cancelled; an interrupted walk returns without blocking; goroutines that are joined by a WaitGroup never block on an error channel that is only drained after the join; explicit panics are confined to the tabled construction-time checks."
+	c.Decides = "absence of the mechanisms by which this code base can hang or crash: shared walker/pool/registry/loader state is only touched under its mutex once goroutines run (guarded-by lock sets); nodes are registered before any routine that can look them up is spawned; every lock acquired is released (or its release deferred) on every path; a node routine always reports a completion unless it was cancelled; an interrupted walk returns without blocking; goroutines that are joined by a WaitGroup never block on an error channel that is only drained after the join; explicit panics are confined to the tabled construction-time checks; every semaphore slot taken is given back on every path; adjacency lists of the graph are not written through aliases; the loader's queue consumers keep draining when the loader waits for the walker."
 	c.NotDec = "deadlock freedom of the walker protocol as a whole, third-party code (bubbletea, pond, SDKs), fairness."
 	w := findWalker(c, "R04b")
 	ruleR04a(c)
@@ -26,6 +26,7 @@ func runC04(c *Check, tier string) {
 	ruleLockPairing(c, "R04f")
 	ruleSemaphorePairing(c, "R04g")
 	ruleAdjacencyNotAliased(c, "R04h")
+	ruleQueueDrained(c, "R04i")
 }
 
 // ruleSemaphorePairing (shared with C18): every acquired slot of a counting semaphore — a successful
